@@ -123,6 +123,10 @@ class Simulator(BaseSimObj):
                     >= self.max_recompute
                 )
             ):
+                # A schedule is due in this period. Keep that on record until
+                # it has been applied, so that a run interrupted by the
+                # scheduler can be resumed here whatever triggered the call.
+                self._resolve = True
                 new_schedule = self.scheduler.run()
                 self._update_schedules(new_schedule)
                 if self.schedule_history is not None:
